@@ -69,5 +69,4 @@ package hotstuff
 
 //@ func NewPartialCert
 //@   trusted iterates the participant set through the IDSet interface with a closure (iterator contract not modelled)
-//@   requires signature != nil
 //@   ensures result.signature == signature && result.blockHash == blockHash
